@@ -296,13 +296,23 @@ def build_kauri_data(s):
     return np.ascontiguousarray(X, dtype=np.float64)
 
 
+def kauri_callable(k):
+    """Callable kernel with Kauri's convention f(x, y) on pairs of rows."""
+    from sklearn.metrics.pairwise import PAIRWISE_KERNEL_FUNCTIONS
+    f = PAIRWISE_KERNEL_FUNCTIONS[k["name"]]
+    return lambda a, b: 1.5 * float(f(a.reshape(1, -1), b.reshape(1, -1))[0, 0])
+
+
 def kauri_ref_kernel(s, X):
     k = s["kernel"]
     if k["form"] in ("psd", "indef"):
         return gens.ref_affinity(k, X)
-    Kmat = pairwise_kernels(X, metric=k["name"])
     if k["form"] == "callable":
-        Kmat = 1.5 * Kmat
+        # "the output of the callable": evaluated pair by pair by the harness too (evaluating the named kernel on the
+        # whole matrix at once differs in the last digits on badly conditioned data)
+        Kmat = pairwise_kernels(X, metric=kauri_callable(k))
+    else:
+        Kmat = pairwise_kernels(X, metric=k["name"])
     return np.ascontiguousarray(Kmat, dtype=np.float64)
 
 
@@ -316,9 +326,7 @@ def build_kauri(s, X=None):
     if k["form"] == "named":
         kw["kernel"] = k["name"]
     elif k["form"] == "callable":
-        from sklearn.metrics.pairwise import PAIRWISE_KERNEL_FUNCTIONS
-        f = PAIRWISE_KERNEL_FUNCTIONS[k["name"]]
-        kw["kernel"] = lambda a, b: 1.5 * float(f(a.reshape(1, -1), b.reshape(1, -1))[0, 0])
+        kw["kernel"] = kauri_callable(k)
     else:
         kw["kernel"] = "precomputed"
         y = kauri_ref_kernel(s, X)
